@@ -642,6 +642,7 @@ func c07iterProbe(c *core.Ctx) {
 func C07(c *core.Ctx) {
 	c07whenProbe(c)
 	c07iterProbe(c)
+	c07windowText(c)
 	c07recursiveProbe(c)
 	c.Rule = "generated schemas (containers, keyed lists nested up to 3 levels, config-false containers/lists/leaves, defaults) × trees (values equal to their default, unset leaves with defaults, lists of 0–4 entries) × targets (module, container, list, list entry) × queries: every parameter alone and random combinations of depth (1–5), content (config/nonconfig/all), fields and fc.xfields (random expressions over the schema: nested paths, alternatives, groups, something after a group, unknown names), with-defaults=trim, fc.range (windows incl. empty, reversed, out of range, on nested lists, several lists, the target list itself), raw and percent-encoded; result (WriteJSON of the constrained selection) compared with the Lean projection model; source store compared before/after; ParsePathExpression compared with the Lean parser on every generated and on malformed expressions; a stream of invalid parameter values must be refused; directed: a module whose ten when conditions all hold against the same module without them, 11 targets × 18 parameter sets (content, with-defaults, depth, fields, fc.xfields, fc.range and combinations); a schema of self-using groupings (container, keyed list) against the same schema written out level by level, 15 targets × 19 parameter sets. non-trivial = query that removes something but not everything; distinct by (schema, tree, target, query)"
 	c.Assumptions = append(c.Assumptions,
@@ -1085,6 +1086,123 @@ func c07listTargets(kids []*gen.SNode, body []*gen.DNode, prefix string, cfg boo
 					c07listTargets(s.Kids, row.Kids, prefix+s.Name+"="+strings.Join(ks, ",")+"/", c2, f)
 				}
 			}
+		}
+	}
+}
+
+// the text of an fc.range value against the Lean reader (Model/Window.lean parseRange) and the rows a window lets
+// through against Model/Window rowsOf: NewListRange's StartRow / EndRow / error on every combination of up to three
+// pieces from a pool (numbers, signs, 64-bit limits, blanks, letters, other digits) joined by '-', with and without '!';
+// and a list of six entries read through every window 0..7 x -1..7
+func c07windowText(c *core.Ctx) {
+	pool := []string{"", "0", "1", "3", "007", "+4", "9223372036854775807", "9223372036854775808", "99999999999999999999", "x", "1x", " 1", "1 ", "+", "++1", "\u0663", "1_0", "0x10", "1e1"}
+	var exprs []string
+	for _, sel := range []string{"l", "a/l", ""} {
+		for _, a := range pool {
+			exprs = append(exprs, sel+"!"+a)
+			for _, b := range pool {
+				exprs = append(exprs, sel+"!"+a+"-"+b)
+				if sel == "l" {
+					for _, d := range []string{"", "2", "x"} {
+						exprs = append(exprs, sel+"!"+a+"-"+b+"-"+d)
+					}
+				}
+			}
+		}
+	}
+	exprs = append(exprs, "", "l", "1-2", "l!1-2!3", "l!!1-2", "!", "!-", "!--", "l!-1", "l!-1-", "l!1-2-", "a;b!0-1", "a/(b;c)!2-")
+	var lines, lib []string
+	for _, e := range exprs {
+		c.Evaluations++
+		var res string
+		if perr := safeDo(func() error {
+			lr, err := node.NewListRange(e)
+			if err != nil {
+				res = "error"
+			} else {
+				res = fmt.Sprintf("%d %d", lr.StartRow, lr.EndRow)
+			}
+			return nil
+		}); perr != nil {
+			res = perr.Error()
+		}
+		switch {
+		case res == "error":
+			c.Count("window-text", "refused")
+		case strings.HasSuffix(res, " -1"):
+			c.Count("window-text", "open")
+		default:
+			c.Count("window-text", "closed")
+		}
+		lines = append(lines, "c07 window h"+core.Hex(e))
+		lib = append(lib, res)
+	}
+	// the rows
+	y := `module wr { namespace "urn:wr"; prefix wr; revision 2020-01-01; list l { key k; leaf k { type int32; } } }`
+	m, err := parser.LoadModuleFromString(nil, y)
+	if err != nil {
+		c.Violation(core.Replay{Kind: "harness", Summary: "c07windowText module: " + err.Error(), NoInputFound: true})
+		return
+	}
+	doc := `{"l":[{"k":0},{"k":1},{"k":2},{"k":3},{"k":4},{"k":5}]}`
+	nText := len(lines)
+	for st := 0; st <= 7; st++ {
+		for en := -1; en <= 7; en++ {
+			c.Evaluations++
+			c.Count("window-text", "rows")
+			w := fmt.Sprintf("!%d-%d", st, en)
+			if en < 0 {
+				w = fmt.Sprintf("!%d-", st)
+			}
+			var walked []string
+			perr := safeDo(func() error {
+				src, err := nodeutil.ReadJSON(doc)
+				if err != nil {
+					return err
+				}
+				sel, err := node.NewBrowser(m, src).Root().Find("l?fc.range=" + url.QueryEscape(w))
+				if err != nil || sel == nil {
+					return fmt.Errorf("find: %v", err)
+				}
+				item, err := sel.First()
+				for ; err == nil && item.Selection != nil; item, err = item.Next() {
+					walked = append(walked, item.Key[0].String())
+					if len(walked) > 50 {
+						return fmt.Errorf("walk does not end")
+					}
+				}
+				return err
+			})
+			res := strings.TrimSpace("rows " + strings.Join(walked, " "))
+			if perr != nil {
+				res = perr.Error()
+			}
+			lines = append(lines, fmt.Sprintf("c07 rows %d %d 6", st, en))
+			lib = append(lib, res)
+		}
+	}
+	outs, derr := core.RunDriver(lines)
+	if derr != nil {
+		c.ProofBroken = append(c.ProofBroken, derr.Error())
+		return
+	}
+	for i, o := range outs {
+		model := strings.TrimSpace(o)
+		if i < nText && strings.HasPrefix(model, "ok ") {
+			f := strings.Fields(model)
+			model = f[len(f)-2] + " " + f[len(f)-1]
+		}
+		if i%701 == 0 {
+			c.Sample(map[string]string{"case": lines[i], "library": lib[i], "model": model})
+		}
+		if model != lib[i] {
+			what := "rows visited through the window"
+			in := interface{}(lines[i])
+			if i < nText {
+				what = fmt.Sprintf("NewListRange(%q) (start row, end row)", exprs[i])
+				in = exprs[i]
+			}
+			c.Violation(core.Replay{Kind: "property-failure", Class: "window-text", Summary: fmt.Sprintf("%s: the library gives %q, the model of the window text (Model/Window) gives %q", what, lib[i], model), Input: in, Impl: lib[i], Model: model})
 		}
 	}
 }
